@@ -201,7 +201,9 @@ impl DbInner {
 	fn open(options: &Options, opening_mode: OpeningMode) -> Result<DbInner> {
 		if opening_mode == OpeningMode::Create {
 			try_io!(std::fs::create_dir_all(&options.path));
-		} else if !options.path.is_dir() {
+		} else if !options.path.is_dir() || !options.path.join("metadata").is_file() {
+			// Without metadata there is no database to open (load_and_validate_metadata would
+			// say so below): fail before the lock file is created in somebody's directory.
 			return Err(Error::DatabaseNotFound)
 		}
 
